@@ -80,7 +80,9 @@ def load(R):
                    "forall(str, lambda k: (k in result) == (k in self.kwargs or k in PK(self) or (IN_PN(PN(self), k) and k not in PK(self) and free_rank(self, POS(PN(self), k)) < NPOS(self))))",
                    # ... and to what: call keyword > positional (partial positionals first, then the call's) > partial keyword
                    "forall(str, lambda k: implies(k in self.kwargs, same(result[k], self.kwargs[k])))",
-                   "forall(str, lambda k: implies(k not in self.kwargs and IN_PN(PN(self), k) and k not in PK(self) and free_rank(self, POS(PN(self), k)) < NPOS(self), "
+                   # every value that is presented is in the binding (or the call is refused): a positional value is never silently replaced by a call keyword
+                   # naming the same parameter -- f(1, a=2) must not get the key of f(2)
+                   "forall(str, lambda k: implies(IN_PN(PN(self), k) and k not in PK(self) and free_rank(self, POS(PN(self), k)) < NPOS(self), "
                    "same(result[k], POSV(self, free_rank(self, POS(PN(self), k))))))",
                    "forall(str, lambda k: implies(k not in self.kwargs and k in PK(self), same(result[k], PK(self)[k])))",
                    # the r-th positional parameter is the r-th parameter (in signature order) that no partial keyword binds
@@ -96,6 +98,9 @@ def load(R):
                           "forall(str, lambda k: implies(IN_PN(PN(self), k) and k not in PK(self) and free_rank(self, POS(PN(self), k)) < len(PA(self)) + loop_i, "
                           "same(result[k], POSV(self, free_rank(self, POS(PN(self), k))))))",
                           "forall(str, lambda k: implies(k in PK(self), same(result[k], PK(self)[k])))",
+                          "len(remaining_parameter_names) >= len(self.args)", "len(unbound_parameter_names) >= len(PA(self))"],
+                      # the refusal loop: no call keyword names one of the first NPOS unbound parameters
+                      4: ["forall(str, lambda k: implies(IN_PN(PN(self), k) and k not in PK(self) and free_rank(self, POS(PN(self), k)) < loop_i, k not in self.kwargs))",
                           "len(remaining_parameter_names) >= len(self.args)", "len(unbound_parameter_names) >= len(PA(self))"]},
                # remaining_parameter_names is a slice of the filter comprehension: element -> slice index -> comprehension index -> source index
                labels={})
